@@ -24,6 +24,11 @@ PROFILE = S.profile(renames=0.05, dups=0.0, attrs=0.1, orders=["identity", "reve
                     sizes=[("small", 70), ("medium", 18), ("large", 9), ("full8", 3)])
 
 
+def fixed_cases(tier):
+    # run-count matrix: exactly k runs for k around every power of two up to 300
+    return [{"spec": spec, "cfg": S.simple_config(["MIN", "MAX", "next", "next_back", "try_from"]), "seed": 0} for spec in C.run_count_specs()]
+
+
 @st.composite
 def cases(draw, tier="quick"):
     spec = draw(S.enum_specs(PROFILE))
